@@ -173,7 +173,7 @@ impl CliWorld {
   }
 }
 
-const DIRS: &[&str] = &["", "src/", "src/deep/", "lib/", "web/", "vendor/", "pkg/a/b/", "gen code/", "géné/", "src/gen code/"];
+const DIRS: &[&str] = &["", "src/", "src/deep/", "lib/", "web/", "vendor/", "pkg/a/b/", "gen code/", "géné/", "src/gen code/", ".cache/", "src/.hidden/"];
 
 fn lang_of_ext(ext: &str) -> &'static str {
   CORPORA.iter().find(|c| c.ext == ext).map(|c| c.lang).unwrap_or("")
